@@ -326,3 +326,33 @@ def text_dfa(m):
         else:
             L.append("N %d %s" % (len(st["trans"]), " ".join(text_trans(t) for t in st["trans"])))
     return "\n".join(L)
+
+
+def remap_ids(m, prim_keys, test_keys, shared):
+    """rewrite the primitive / test ids of an exported machine (ids local to the compilation that produced it)
+    into the ids of the shared table `shared` = {"prims": {key: id}, "tests": {key: id}} (extended on demand)"""
+    def pid(i):
+        return shared["prims"].setdefault(prim_keys[i], len(shared["prims"]))
+    def tid(i):
+        return shared["tests"].setdefault(test_keys[i], len(shared["tests"]))
+    def at(a):
+        k = a[0]
+        if k == "prim":
+            return ["prim", pid(a[1]), at(a[2])]
+        if k == "test":
+            return ["test", tid(a[1]), at(a[2]), at(a[3])]
+        return a
+    def tr(t):
+        t = dict(t); t["acts"] = at(t["acts"]); return t
+    mm = dict(m)
+    mm["start_acts"] = at(m["start_acts"])
+    sts = []
+    for st in m["states"]:
+        if st["kind"] == "normal":
+            sts.append({"kind": "normal", "trans": [tr(t) for t in st["trans"]]})
+        elif st["kind"] == "cond":
+            sts.append({"kind": "cond", "brs": [[None if c is None else tid(c), tr(t)] for c, t in st["brs"]]})
+        else:
+            sts.append(st)
+    mm["states"] = sts
+    return mm
